@@ -282,3 +282,116 @@
         final(self).index_manager == old(self).index_manager && final(self).data_wrap == old(self).data_wrap
             && final(self).log_manager == old(self).log_manager && final(self).snapshot_manager == old(self).snapshot_manager,
         final(self).snapshot_stage(old(vx_log).s.push(sent(old(self).im(), RaftIndexRequest::LoadIndexInfo)), final(vx_log).s),
+@@ FileStore::get_membership_config@RaftStorage<ClientRequest,ClientResponse> effects send
+@@ FileStore::get_membership_config@RaftStorage<ClientRequest,ClientResponse> spec
+    ensures final(vx_log).s == old(vx_log).s.push(sent(self.index_manager, RaftIndexRequest::LoadMember)),   // @C08
+@@ FileStore::save_hard_state@RaftStorage<ClientRequest,ClientResponse> effects send
+@@ FileStore::save_hard_state@RaftStorage<ClientRequest,ClientResponse> spec
+    // C05 (storage boundary): a hard-state save is ONE SaveHardState message to the index manager with the term and the vote (0 = none)
+    ensures final(vx_log).s == old(vx_log).s.push(sent(self.index_manager, RaftIndexRequest::SaveHardState {
+            current_term: hs.current_term, voted_for: if hs.voted_for is Some { hs.voted_for.unwrap() } else { 0 } })),   // @C05
+@@ FileStore::apply_entry_to_state_machine@RaftStorage<ClientRequest,ClientResponse> effects send
+@@ FileStore::apply_entry_to_state_machine@RaftStorage<ClientRequest,ClientResponse> spec
+    // C07 (storage boundary, leader): an entry handed to the store is ONE ApplyRequest(index, entry) to the apply manager; a store
+    // whose writes are closed sends nothing and answers Err
+    ensures
+        self.closed() ==> r is Err && final(vx_log).s == old(vx_log).s,
+        !self.closed() ==> final(vx_log).s == old(vx_log).s.push(sent(self.apply_manager,
+            StateApplyAsyncRequest::ApplyRequest(ApplyRequestDto { index: *index, request: *data }))),
+@@ FileStore::finalize_snapshot_installation@RaftStorage<ClientRequest,ClientResponse> effects send
+@@ FileStore::finalize_snapshot_installation@RaftStorage<ClientRequest,ClientResponse> effects_pass get_membership_config
+@@ FileStore::finalize_snapshot_installation@RaftStorage<ClientRequest,ClientResponse> subst
+    id.parse()? => vx_parse_u64(&id)?
+@@ FileStore::finalize_snapshot_installation@RaftStorage<ClientRequest,ClientResponse> spec
+    requires delete_through is Some ==> delete_through.unwrap() < u64::MAX
+    // C08 (storage boundary): an installed snapshot is (1) entered in the snapshot catalogue under the id the file was created with,
+    // (2) handed to the apply manager — the very file — (3) the log below it is split off, (4) a pointer entry for (index, term, id)
+    // is installed in the log; in this order, nothing else, and nothing at all when the id is not a number
+    ensures
+        parse_u64(id@) is None ==> r is Err && final(vx_log).s == old(vx_log).s,   // @C08
+        r is Ok ==> parse_u64(id@) is Some && exists|rec: LogRecordDto| final(vx_log).s == old(vx_log).s + seq![
+            sent(self.snapshot_manager, RaftSnapshotRequest::InstallSnapshot { end_index: index, snapshot_id: parse_u64(id@).unwrap() }),
+            sent(self.apply_manager, StateApplyRequest::ApplySnapshot { snapshot }),
+            sent(self.log_manager, RaftLogManagerRequest::SplitOff(if delete_through is Some { (delete_through.unwrap() + 1) as u64 } else { 0 })),
+            sent(self.index_manager, RaftIndexRequest::LoadMember),
+            #[trigger] sent(self.log_manager, RaftLogManagerRequest::InstallSnapshotPointerLog(rec))],   // @C08
+@@ ApplyRequestDto::new spec
+    ensures r.index == index, r.request == request
+@@ FileStore::replicate_to_state_machine@RaftStorage<ClientRequest,ClientResponse> effects send
+@@ FileStore::replicate_to_state_machine@RaftStorage<ClientRequest,ClientResponse> spec
+    // C07 (storage boundary, follower): a replicated batch handed to the store is ONE ApplyBatchRequest to the apply manager that
+    // holds every entry, unchanged, in the order given
+    ensures
+        self.closed() ==> r is Err && final(vx_log).s == old(vx_log).s,
+        !self.closed() ==> exists|list: Vec<ApplyRequestDto>| final(vx_log).s == old(vx_log).s.push(#[trigger] sent(self.apply_manager, StateApplyRequest::ApplyBatchRequest(list)))
+            && list@.len() == entries@.len() && forall|i: int| 0 <= i < list@.len() ==> (#[trigger] list@[i]).index == *entries@[i].0 && list@[i].request == *entries@[i].1,
+@@ FileStore::replicate_to_state_machine@RaftStorage<ClientRequest,ClientResponse> foriter 1 it
+@@ FileStore::replicate_to_state_machine@RaftStorage<ClientRequest,ClientResponse> loop 1
+    invariant
+        it.seq().unref() == entries@, list@.len() == it.index@,
+        forall|i: int| 0 <= i < list@.len() ==> (#[trigger] list@[i]).index == *entries@[i].0 && list@[i].request == *entries@[i].1,
+@@ FileStore::replicate_to_state_machine@RaftStorage<ClientRequest,ClientResponse> subst
+    let mut list = Vec::with_capacity(entries.len()); => let mut list: Vec<ApplyRequestDto> = Vec::with_capacity(entries.len());
+@@ FileStore::write_log_result_to_result spec
+    // the store acknowledges a log write only for Success / Ignore
+    ensures out is Ok <==> (r is Success || r is Ignore),
+@@ FileStore::write_log_result_to_result ret out
+@@ FileStore::append_entry_to_log@RaftStorage<ClientRequest,ClientResponse> effects send
+@@ FileStore::append_entry_to_log@RaftStorage<ClientRequest,ClientResponse> subst
+    tokio::sync::oneshot::channel() => oneshot_shim::channel()
+    rx.await?? => rx.vx_recv().await??
+@@ FileStore::append_entry_to_log@RaftStorage<ClientRequest,ClientResponse> spec
+    // C07 / C02 (storage boundary): an appended entry is ONE Write message to the log manager carrying the entry's record; the append is
+    // acknowledged only when the log manager reported the write
+    ensures
+        record_of_entry(*entry) is None ==> r is Err && final(vx_log).s == old(vx_log).s,
+        record_of_entry(*entry) is Some ==> exists|tx: LogWriteResultSender| final(vx_log).s == old(vx_log).s.push(#[trigger] sent(self.log_manager,
+            RaftLogManagerRequest::Write { record: record_of_entry(*entry).unwrap(), sender: tx })),
+@@ FileStore::delete_logs_from@RaftStorage<ClientRequest,ClientResponse> effects send
+@@ FileStore::delete_logs_from@RaftStorage<ClientRequest,ClientResponse> subst
+    tokio::sync::oneshot::channel() => oneshot_shim::channel()
+    rx.await?? => rx.vx_recv().await??
+@@ FileStore::delete_logs_from@RaftStorage<ClientRequest,ClientResponse> spec
+    // C03 (storage boundary): a conflict truncation is ONE StripLogToIndex message for exactly the first removed index
+    ensures exists|tx: LogWriteResultSender| final(vx_log).s == old(vx_log).s.push(#[trigger] sent(self.log_manager,
+            RaftLogManagerRequest::StripLogToIndex { end_index: start, sender: tx })),
+@@ FileStore::replicate_to_log@RaftStorage<ClientRequest,ClientResponse> effects send
+@@ FileStore::replicate_to_log@RaftStorage<ClientRequest,ClientResponse> subst
+    tokio::sync::oneshot::channel() => oneshot_shim::channel()
+    rx.await?? => rx.vx_recv().await??
+    let mut records = Vec::with_capacity(entries.len()); => let mut records: Vec<LogRecordDto> = Vec::with_capacity(entries.len());
+@@ FileStore::replicate_to_log@RaftStorage<ClientRequest,ClientResponse> foriter 1 it
+@@ FileStore::replicate_to_log@RaftStorage<ClientRequest,ClientResponse> spec
+    // C07 / C02 (storage boundary, follower): a replicated batch is ONE WriteBatch message holding the record of every entry, in the
+    // order given; nothing is sent when an entry cannot be encoded
+    ensures
+        (exists|i: int| 0 <= i < entries@.len() && record_of_entry(#[trigger] entries@[i]) is None) ==> r is Err && final(vx_log).s == old(vx_log).s,
+        (forall|i: int| 0 <= i < entries@.len() ==> record_of_entry(#[trigger] entries@[i]) is Some) ==>
+            exists|tx: LogWriteResultSender, records: Vec<LogRecordDto>| final(vx_log).s == old(vx_log).s.push(#[trigger] sent(self.log_manager,
+                RaftLogManagerRequest::WriteBatch { records, sender: tx }))
+                && records@.len() == entries@.len() && forall|i: int| 0 <= i < records@.len() ==> #[trigger] records@[i] == record_of_entry(entries@[i]).unwrap(),
+@@ FileStore::replicate_to_log@RaftStorage<ClientRequest,ClientResponse> loop 1
+    invariant
+        it.seq().unref() == entries@, records@.len() == it.index@, vx_log.s == old(vx_log).s,
+        forall|i: int| 0 <= i < records@.len() ==> record_of_entry(#[trigger] entries@[i]) is Some && records@[i] == record_of_entry(entries@[i]).unwrap(),
+@@ FileStore::get_initial_state@RaftStorage<ClientRequest,ClientResponse> effects send
+@@ FileStore::get_initial_state@RaftStorage<ClientRequest,ClientResponse> effects_pass get_last_log_index
+@@ FileStore::get_initial_state@RaftStorage<ClientRequest,ClientResponse> replies send
+@@ FileStore::get_initial_state@RaftStorage<ClientRequest,ClientResponse> spec
+    // C05 (storage boundary, restart): the hard state and the last-applied index the Raft core starts from are EXACTLY what the index
+    // manager reports (which, by the handler contract in unit raftindex, is what was saved last): term unchanged, vote 0 = none
+    ensures final(vx_log).replies.len() == old(vx_log).replies.len() + 1,   // @C05
+        match final(vx_log).replies.last() {   // @C05
+            ReplyVal::Index(Ok(Ok(RaftIndexResponse::RaftIndexInfo { raft_index, last_applied_log }))) => r is Ok
+                && r.unwrap().hard_state.current_term == raft_index.current_term   // @C05
+                && r.unwrap().hard_state.voted_for == (if raft_index.voted_for > 0 { Some(raft_index.voted_for) } else { None::<u64> })   // @C05
+                && r.unwrap().last_applied_log == last_applied_log
+                && r.unwrap().membership.members@ == raft_index.member@.to_set(),
+            ReplyVal::Index(Ok(Ok(_))) => r is Ok,
+            _ => r is Err,   // @C05
+        },   // @C05
+@@ FileStore::get_initial_state@RaftStorage<ClientRequest,ClientResponse> entry
+    broadcast use axiom_reply_val_index;
+@@ FileStore::get_last_log_index effects send
+@@ FileStore::get_last_log_index spec
+    ensures final(vx_log).s == old(vx_log).s.push(sent(self.log_manager, RaftLogManagerAsyncRequest::GetLastLogIndex)), final(vx_log).replies == old(vx_log).replies,
